@@ -39,6 +39,51 @@ def run(ctx, replay=None):
                 ctx.tests['former_cross_instances'] = ctx.tests.get('former_cross_instances', 0) + 1
             except Exception as e:
                 ctx.count('former_cross_rejected', type(e).__name__)
+        # using a cross-variogram (non-forced preprocessing, fit, transform, data) never changes its pairwise quantities; (z1,z2) = (z2,z1) also
+        # for column-major tables the caller keeps writing to
+        for case in cases[:30 if not ctx.thorough() else 300]:
+            if case.get('table') or case.get('values2') is None:
+                continue
+            try:
+                v1, v2 = np.array(case['values'], float), np.array(case['values2'], float)
+                Va = vc.build(dict(case), fit_method='trf', model='spherical')
+                e0, d0 = np.asarray(Va.experimental, float).copy(), np.asarray(Va.pairwise_diffs, float).copy()
+                used = []
+                for use in rng.sample(['preprocessing', 'fit', 'transform', 'data', 'describe'], 3):
+                    try:
+                        if use == 'preprocessing':
+                            Va.preprocessing()
+                        elif use == 'fit':
+                            Va.fit()
+                        elif use == 'transform':
+                            Va.transform(np.array([1.0, 2.5]))
+                        elif use == 'data':
+                            Va.data(n=10)
+                        else:
+                            Va.describe()
+                        used.append(use)
+                    except Exception as e:
+                        ctx.count('use_rejected', use + ':' + type(e).__name__)
+                e1, d1 = np.asarray(Va.experimental, float), np.asarray(Va.pairwise_diffs, float)
+                if len(d0) != len(d1) or not np.array_equal(d0, d1) or not all(gen.close(x, y, 1e-12) for x, y in zip(e0, e1)):
+                    ctx.problem('oracle', 'using a cross-variogram (%s) changes its pairwise quantities / experimental values' % ', '.join(used), case,
+                                {'before': e0.tolist()[:8], 'after': e1.tolist()[:8]}, {'what': 'cross-use-changes-diffs'})
+                # column-major table, caller writes afterwards, forced recalculation: still |dz1|*|dz2| of the values at construction, in both orders
+                tab = np.array([v1, v2]).T
+                tab2 = np.array([v2, v1]).T
+                Vf = vc.build(dict(case, values=None, values2=None), values_table=tab)
+                Vg = vc.build(dict(case, values=None, values2=None), values_table=tab2)
+                tab[:, 1] = tab[:, 1] * 3.0 + 1.0
+                tab2[:, 0] = tab2[:, 0] * 0.0
+                Vf.preprocessing(force=True)
+                Vg.preprocessing(force=True)
+                ef, eg = np.asarray(Vf.experimental, float), np.asarray(Vg.experimental, float)
+                if not all(gen.close(x, y, 1e-12) for x, y in zip(ef, e0)) or not all(gen.close(x, y, 1e-12) for x, y in zip(ef, eg)):
+                    ctx.problem('oracle', 'cross-variogram of a column-major value table: after the caller wrote into the table, (z1,z2), (z2,z1) and the values at construction disagree', case,
+                                {'z1z2': ef.tolist()[:8], 'z2z1': eg.tolist()[:8], 'at_construction': e0.tolist()[:8]}, {'what': 'cross-table-layout'})
+                ctx.tests['cross_usage_histories'] = ctx.tests.get('cross_usage_histories', 0) + 1
+            except Exception as e:
+                ctx.count('cross_usage_rejected', type(e).__name__ + ':' + str(e)[:50])
         # the table of cross_variograms
         nt = 25 if not ctx.thorough() else 250
         for t in range(nt):
